@@ -323,35 +323,60 @@ example : AckBeforePut (Cfg.shipped 1 2) (fun k => k) (init (Cfg.shipped 1 2) (f
   simp only [AckBeforePut]
   decide
 
-/-- The unrestricted decision statement (no cache-miss hypothesis): at capacity a put of an unlisted key
-farther than the farthest listed key is refused. -/
-def RefusedWhenFarther : Prop :=
-  ∀ (cfg : Cfg) (dist : Nat → Nat) (ops : List Op) (k v : Nat) (rt : RType) (f fd : Nat), Injective dist →
-    cfg.maxRecords ≤ (run cfg dist ops).index.length → (run cfg dist ops).farthest = some (f, fd) →
-    dist f < dist k → (putVerified cfg dist (run cfg dist ops) k v rt).2 = .maxRecords
+/-- **A refused put leaves no trace** (K-u, fixed in `put_verified`): when `put_verified` answers
+`MaxRecords`, index, distance index, farthest record, files, pending tasks and notifications are as
+before; the cache holds nothing for the refused key and nothing it did not hold before; an unlisted
+refused key is neither readable nor listed; and putting it again (any value, any type) is refused again. -/
+theorem refused_put_leaves_no_trace (cfg : Cfg) (dist : Nat → Nat) (s : St) (k v : Nat) (rt : RType)
+    (h : (putVerified cfg dist s k v rt).2 = .maxRecords) :
+    let s' := (putVerified cfg dist s k v rt).1
+    s'.index = s.index ∧ s'.byDist = s.byDist ∧ s'.farthest = s.farthest ∧ s'.disk = s.disk ∧
+    s'.tasks = s.tasks ∧ s'.notes = s.notes ∧ s'.payments = s.payments ∧ s'.range = s.range ∧
+    lookup k s'.cache = none ∧ (∀ e ∈ s'.cache, e ∈ s.cache) ∧
+    (lookup k s.index = none → get cfg s' k = none ∧ contains s' k = false) ∧
+    (∀ v' rt', (putVerified cfg dist s' k v' rt').2 = .maxRecords) := by
+  unfold putVerified at h
+  split at h
+  · cases h
+  · rename_i hmiss
+    simp only at h
+    split at h
+    · rename_i hp
+      have hs' : (putVerified cfg dist s k v rt).1 =
+          { s with cache := erase k (pushBack cfg.cacheSize (erase k s.cache) s.clock k v), clock := s.clock + 1 } := by
+        simp only [putVerified, hmiss, ↓reduceIte, hp]
+      rw [hs']
+      have hc : lookup k (erase k (pushBack cfg.cacheSize (erase k s.cache) s.clock k v)) = none := lookup_erase_self _ _
+      refine ⟨rfl, rfl, rfl, rfl, rfl, rfl, rfl, rfl, hc, ?_, ?_, ?_⟩
+      · intro e he
+        obtain ⟨he1, he2⟩ := mem_erase.mp he
+        rcases mem_pushBack he1 with rfl | he1
+        · exact absurd rfl he2
+        · exact (mem_erase.mp he1).1
+      · intro hl
+        simp only [SafeNet.Store.get, hc, hl, contains, Option.isSome_none, and_self]
+      · intro v' rt'
+        -- the refusal depends only on the index size, the farthest record and the distance of `k`
+        unfold prune at hp
+        simp only at hp
+        split at hp
+        · cases hp
+        · rename_i hfull
+          split at hp
+          · cases hp
+          · rename_i f fd hf
+            split at hp
+            · rename_i href
+              simp [putVerified, hc, prune, hfull, hf, href]
+            · cases hp
+    · cases h
 
-def reputOps : List Op :=
-  [.run 0, .put 1 3 .chunk, .run 1, .deliver 1,    -- capacity 1 reached with the near key 1
-   .put 2 6 .chunk]                                -- key 2 is farther: refused, but stays in the cache
-
-/-- **K-u.** A refused record stays in the FIFO cache; putting the same record again returns `Ok(())`
-through the cache-equality early return although nothing is stored or scheduled; after two more
-(refused) puts it has left the cache: an accepted put that is neither listed nor readable, with
-nothing in flight. -/
-theorem refused_reput_accepted_witness :
+/-- the former K-u witness history now refuses the repeated put and serves nothing -/
+example :
     let cfg := Cfg.shipped 1 2
-    let s := run cfg (fun k => k) reputOps
-    let r := putVerified cfg (fun k => k) s 2 6 .chunk
-    let s' := runFrom cfg (fun k => k) r.1 [.put 3 9 .chunk, .put 4 12 .chunk]
-    (step cfg (fun k => k) (run cfg (fun k => k) (reputOps.dropLast)) (.put 2 6 .chunk)).2 = .put .maxRecords ∧
-    r.2 = .dedup ∧ get cfg r.1 2 = some (.whole 6) ∧ contains r.1 2 = false ∧
-    s'.tasks = [] ∧ s'.notes = [] ∧ get cfg s' 2 = none ∧ contains s' 2 = false := by
-  decide
-
-theorem refusedWhenFarther_false : ¬ RefusedWhenFarther := by
-  intro h
-  have := h (Cfg.shipped 1 2) (fun k => k) reputOps 2 6 .chunk 1 1 (fun a b e => e) (by decide) (by decide) (by decide)
-  revert this
+    let s := run cfg (fun k => k) [.run 0, .put 1 3 .chunk, .run 1, .deliver 1, .put 2 6 .chunk]
+    (putVerified cfg (fun k => k) s 2 6 .chunk).2 = .maxRecords ∧ get cfg s 2 = none ∧ contains s 2 = false ∧
+      s.cache = [(1, 3, 0)] := by
   decide
 
 /-- regenerated operators and constants the statements above were proved against -/
@@ -367,8 +392,7 @@ example : Gen.Store.pruneRefuseStrict = true ∧ Gen.Store.farthestUpdateStrict 
 #print axioms SafeNet.Props.C10.payments_exact
 #print axioms SafeNet.Props.C10.payments_survive_restart
 #print axioms SafeNet.Props.C10.capacity_bound_partial
-#print axioms SafeNet.Props.C10.refused_reput_accepted_witness
-#print axioms SafeNet.Props.C10.refusedWhenFarther_false
+#print axioms SafeNet.Props.C10.refused_put_leaves_no_trace
 #print axioms SafeNet.Props.C10.capacity_overrun_witness
 #print axioms SafeNet.Props.C10.capacityBound_false
 end SafeNet.Props.C10
